@@ -68,7 +68,7 @@ class C08(DevProp):
             mn, mx = {"hat": (-1, 1), "s8": (-128, 127), "s16": (-32768, 32767), "u8": (0, 255), "u16": (0, 65535)}[kind]
             flip = (ci // 6) % 2 == 1
             with_neg = (ci // 12) % 3 != 2
-            note, noteneg = rng.choice([0, 36, 60, 100, 127]), rng.choice([1, 48, 72, 126])
+            note, noteneg = rng.choice([0, 3, 36, 60, 100, 124, 127]), rng.choice([1, 2, 48, 72, 125, 126])
             an = agen.analog(agen.ABS_HAT0X if kind == "hat" else agen.ABS_X, "key", note=note, noteneg=(noteneg if with_neg else 0),
                              off=rng.choice([0, 2, 15]), offneg=rng.choice([0, 5]), flip=flip, bidi=with_neg)
             code = an["code"]
@@ -76,7 +76,7 @@ class C08(DevProp):
             absl = [{"code": code, "min": mn, "max": mx}, {"code": agen.ABS_Y, "min": -128, "max": 127}]
             dz = rng.choice([0.0, 0.0, 0.1])
             cfg = agen.base_cfg([an, other], defdz=[{"sub": "", "bits": str(bits(dz))}], actions=[{"code": c, "action": n_} for n_, c in ACT.items()],
-                                channel=rng.randint(1, 16), octave=rng.choice([0, 0, 1, -1, 5]), semitone=rng.choice([0, 0, 3]))
+                                channel=rng.randint(1, 16), octave=rng.choice([0, 0, 1, -1, 5, 10, -10, 11, -11, 12, -12, 17]), semitone=rng.choice([0, 0, 3, 9, -9]))
             zr = zone_raws(mn, mx)
             script = list(allpairs)
             rng.shuffle(script)
